@@ -8,6 +8,7 @@ import (
 	"runtime"
 	"runtime/debug"
 	"strings"
+	"time"
 
 	"github.com/CloudyKit/jet/v6"
 	"verifh/internal/fw"
@@ -203,6 +204,7 @@ func c10n(tier string) int {
 
 func c10run(c *fw.Ctx, idx int) {
 	r := c.Rand(idx, "c10")
+	t0 := time.Now()
 	var units []*c10unit
 	nprog := 4 + r.Intn(4)
 	for i := 0; i < nprog; i++ {
@@ -214,7 +216,17 @@ func c10run(c *fw.Ctx, idx int) {
 			mainRoot = p.Resolve(mainRoot.Extends, mainRoot.Path)
 		}
 		mainRoot.Body = append([]prog.Node{&prog.Print{E: prog.Opaque{Src: "rtprobe()", Val: prog.Str("")}}}, mainRoot.Body...)
-		units = append(units, &c10unit{name: fmt.Sprintf("prog%d", i), p: p})
+		first := &c10unit{name: fmt.Sprintf("prog%d", i), p: p}
+		units = append(units, first)
+		// other files of the same template set executed as entry points on the SAME Set (layouts, libraries, include
+		// targets): what they render must not depend on what was loaded or executed before on that Set
+		for k := 0; k < 2 && len(p.Files) > 1; k++ {
+			q := *p
+			q.Main = p.Files[r.Intn(len(p.Files))].Path
+			if q.Main != p.Main {
+				units = append(units, &c10unit{name: fmt.Sprintf("prog%d-entry%d", i, k), p: &q, share: first})
+			}
+		}
 	}
 	// templates that fail at a point where interpreter state is bound, ending in a panic or error
 	deep := func(tail string) string {
@@ -289,6 +301,16 @@ func c10run(c *fw.Ctx, idx int) {
 		}
 		if u.share != nil {
 			u.set, u.tmpl, u.hash, u.ref = u.share.set, u.share.tmpl, u.share.hash, map[int]c10result{}
+			if u.p.Main != u.share.p.Main {
+				t, err, pan := jx.Get(u.set, u.p.Main)
+				if err != nil || pan != nil {
+					c.Begin(idx, map[string]interface{}{"unit": u.name, "files": u.p.Sources(false)})
+					c.Violation("c10:harness:unit-does-not-parse", "", fmt.Sprint(err, pan))
+					c.End()
+					return
+				}
+				u.tmpl, u.hash = t, ""
+			}
 			continue
 		}
 		u.set = u.mkset()
@@ -328,6 +350,9 @@ func c10run(c *fw.Ctx, idx int) {
 	c.Begin(idx, desc)
 	defer c.End()
 
+	c.Count("us_setup", int(time.Since(t0).Microseconds()))
+	t1 := time.Now()
+	defer func() { c.Count("us_refs_and_history", int(time.Since(t1).Microseconds())) }()
 	runtime.LockOSThread()
 	defer runtime.UnlockOSThread()
 	old := debug.SetGCPercent(-1)
@@ -383,6 +408,9 @@ func c10run(c *fw.Ctx, idx int) {
 		}
 	}
 	for _, u := range units {
+		if u.hash == "" {
+			continue // entry units: their trees are part of the Set hashed through the program's main unit
+		}
 		if h := templateHash(u.tmpl); h != u.hash {
 			c.Violation("c10:template-modified:"+c10kind(u.name), "", fmt.Sprintf("parsed template of %s changed during the history (%s -> %s)", u.name, u.hash, h))
 			return
@@ -422,7 +450,7 @@ func init() {
 	fw.Register(&fw.Property{
 		ID:        "C10",
 		Technique: "history monitor with fresh-state reference: every Execute of a history on one locked OS thread (pooled Runtime reused, GC off) must equal the same call executed on a freshly built and parsed Set right after the pools were drained; parsed templates hashed before/after",
-		Rule: "each case is one history of 8-32 Execute calls over a pool of 4-7 generated programs (failures anywhere: in yields with content, ranges, if-let, includes, try) plus 16 fixed templates: executions failing deep inside a block yielded with content below if-let and range (ending in an error, a function error, or a string panic that escapes Execute), try bodies, and probes exposing '.', 'yield content', isset() of names bound earlier, try/catch and block defaults, and a field promoted through an embedded pointer (nil in one unit, set in another) of a struct type minted per history, and one parsed template with computed include names executed with four different variable bindings; " +
+		Rule: "each case is one history of 8-32 Execute calls over a pool of 4-7 generated programs, each also through up to two other entry points on the same Set (failures anywhere: in yields with content, ranges, if-let, includes, try) plus 16 fixed templates: executions failing deep inside a block yielded with content below if-let and range (ending in an error, a function error, or a string panic that escapes Execute), try bodies, and probes exposing '.', 'yield content', isset() of names bound earlier, try/catch and block defaults, and a field promoted through an embedded pointer (nil in one unit, set in another) of a struct type minted per history, and one parsed template with computed include names executed with four different variable bindings; " +
 			"a fifth of the calls write into a writer that fails after 0-39 bytes; oracle: (bytes written, error text) of every call equals the fresh-state reference of the same (template, variables, writer) triple, obtained on a Set parsed from scratch after replacing the Runtime and ranger pools (hook VerifDrainPools; fallback two GC cycles); template trees hashed by reflection before and after; " +
 			"non-trivial = a failed execution immediately followed by another execution on the reused Runtime; distinct by (failing unit, writer failed, following unit); evidence records how often consecutive executions saw the same *Runtime",
 		Assumptions: []string{"generated programs are deterministic (single-entry maps, fresh channels and VarMaps per execution)", "not run under the race detector (it drops pool items at random)"},
